@@ -33,7 +33,7 @@ func apuNew(att int) {
 	}
 	apuA = audio.New(apuL, apuR)
 	// only FF10-FF3F are used, which reach nothing but the audio component
-	apuM = memory.New(nil, nil, nil, nil, nil, nil, nil, apuA)
+	apuM = memory.New(make([]byte, 0x8000), nil, nil, nil, nil, nil, nil, apuA)
 	apuLs, apuRs, apuBad = nil, nil, 0
 }
 
@@ -83,14 +83,14 @@ func apuDrain(idx int, chk *int) int {
 	return n1 - n0
 }
 
-type rle struct {
+type apuRle struct {
 	sb    strings.Builder
 	cur   string
 	count int
 	first bool
 }
 
-func (r *rle) add(s string) {
+func (r *apuRle) add(s string) {
 	if r.count > 0 && s == r.cur {
 		r.count++
 		return
@@ -98,7 +98,7 @@ func (r *rle) add(s string) {
 	r.flush()
 	r.cur, r.count = s, 1
 }
-func (r *rle) flush() {
+func (r *apuRle) flush() {
 	if r.count > 0 {
 		if r.sb.Len() > 0 {
 			r.sb.WriteByte(',')
@@ -107,7 +107,7 @@ func (r *rle) flush() {
 	}
 	r.count = 0
 }
-func (r *rle) String() string { r.flush(); return r.sb.String() }
+func (r *apuRle) String() string { r.flush(); return r.sb.String() }
 
 func joinInts(xs ...int) string {
 	parts := make([]string, len(xs))
@@ -115,13 +115,6 @@ func joinInts(xs ...int) string {
 		parts[i] = fmt.Sprint(x)
 	}
 	return strings.Join(parts, " ")
-}
-
-func b2i(b bool) int {
-	if b {
-		return 1
-	}
-	return 0
 }
 
 func apuSel(sel int) string {
@@ -184,7 +177,7 @@ func init() {
 	// apu.cyc N: N machine cycles; NR52 after each cycle (run-length), pairs emitted, checksum over (cycle, l, r)
 	register("apu.cyc", func(a []string) {
 		n := ai(a, 1)
-		var r rle
+		var r apuRle
 		pairs, chk := 0, 0
 		for i := 0; i < n; i++ {
 			apuA.EndMachineCycle()
@@ -212,7 +205,7 @@ func init() {
 		emit("t %s p %d", sb.String(), pairs)
 	})
 	register("apu.samples", func(a []string) {
-		var r rle
+		var r apuRle
 		n := len(apuLs)
 		if n > len(apuRs) {
 			n = len(apuRs)
